@@ -755,6 +755,21 @@ def check_C16(sc, v, tier, seed, replay):
               "n in {1, 2, 10, 300 | 9999, 10000}; set-level invariants judged by UePop.tla; distinct = distinct SUPI")
     v.assumptions = ["a population larger than the MSIN digits can accommodate is outside the claim"]
     _reject_to_violation(v, rejects, lambda r, e: "Population:%s" % r["why"][:60])
+    # the population as the main program creates it (its own call of CreateUE, with the keys of the configuration file): complete runs of
+    # the real process with three UEs, K / OPc / OP all different (and one run with OP alone), judged by the specification's AMF - SUCI of UE u,
+    # RES* under the configured keys, distinct RAN-UE-NGAP-IDs
+    import random
+    import online
+    emu = online.prepare(sc)
+    rnd = random.Random(seed * 1039 + 16)
+    jobs = []
+    for i in range(2 if tier == "quick" else 6):
+        scn, text = online.make_scenario(rnd, {"reg": 3 if i % 2 == 0 else 2, "pdu": 0, "svc": 0, "rel": 0, "dereg": 0},
+                                         opts={"det": i + seed % 3, "use_opc": i % 2 == 0, "free_msin": True, "lead0": i % 2 == 1,
+                                               "mnc_len": 2 + i % 2, "imsi_len": [15, 13, 14][i % 3]})
+        jobs.append(("pop%02d" % i, scn, text))
+    runs = online.run_many(sc, emu, jobs, parallel=8)
+    _online_collect(v, runs, "C16", sc)
 
 
 # ------------------------------------------------------------------------------------------------
@@ -883,6 +898,18 @@ def check_C12(sc, v, tier, seed, replay):
             return "Term:%s:%s" % (e.get("fn"), e.get("cls"))
         return "Extract:%s" % r["why"][:40]
     _reject_to_violation(v, rejects, key)
+    # what the procedure reports: the extractors are fed by EstablishPDU, which picks the list item and its NAS-PDU out of the setup
+    # request; complete runs of the real process in which the request carries every optional element (RAN paging priority, a
+    # message-level NAS-PDU next to the item's own, the aggregate bit rate), judged by the specification's AMF (reported = assigned)
+    import online
+    emu = online.prepare(sc)
+    jobs = []
+    for i in range(2 if tier == "quick" else 6):
+        scn, text = online.make_scenario(random.Random(seed * 1049 + i), {"reg": 2, "pdu": 2, "svc": 0, "rel": 0, "dereg": 0},
+                                         opts={"det": i + seed % 2, "mnc_len": 2 + i % 2})
+        jobs.append(("est%02d" % i, scn, text))
+    runs = online.run_many(sc, emu, jobs, parallel=8)
+    _online_collect(v, runs, "C12", sc)
 
 
 def online_num(i):
